@@ -137,7 +137,20 @@ func mutate(r *hx.Rng, b []byte) []byte {
 		}
 		return r.Intn(len(c))
 	}
-	switch r.Intn(9) {
+	switch r.Intn(10) {
+	case 9: // leading zero: grow some short string by one byte and put 0x00 in front of its content
+		for try := 0; try < 8 && len(c) > 0; try++ {
+			i := pos()
+			if c[i] >= 0x81 && c[i] < 0xb7 {
+				c[i]++
+				c = append(c[:i+1], append([]byte{0x00}, c[i+1:]...)...)
+				// keep an enclosing short list header consistent when it is the first byte
+				if i > 0 && c[0] >= 0xc0 && c[0] < 0xf7 {
+					c[0]++
+				}
+				break
+			}
+		}
 	case 0: // bit flip
 		if len(c) > 0 {
 			c[pos()] ^= 1 << uint(r.Intn(8))
